@@ -7,7 +7,7 @@ from .common import Out, import_mbi
 
 ID = 'C16'
 RULE = ('Hypothesis draws (mode norm) arbitrary clique lists (loops, dense, nested, singletons, size-1 attributes, any '
-        'attribute order) with finite potentials of scale {0,1,10,1e3} on any region, totals 0.01..1e6, sweep counts '
+        'attribute order) with potentials of scale {0,1,10,1e3} on any region (40% of all cases with -inf cells or one forbidden attribute value, as LocalInference folds structural zeros into them; the all-zero assignment stays possible), totals 0.01..1e6, sweep counts '
         '{1,2,10,100} and two consecutive calls (warm messages) for RegionGraph(convex=False) and FactorGraph(convex=False): '
         'every table finite, >=0, sums to total. (mode gbp) clique sets built as the maximal cliques of a random clique '
         'tree (running intersection by construction, incl. nested separators three levels deep and disconnected parts), '
